@@ -108,6 +108,8 @@ def coq_audit(files):
         txt = open(path).read()
         # strip comments (non-nested is enough: we never nest them)
         txt_nc = re.sub(r"\(\*.*?\*\)", "", txt, flags=re.S)
+        # string literals are data (AVP names such as "...-Parameter"), not vernacular
+        txt_nc = re.sub(r'"(?:[^"]|"")*"', '""', txt_nc)
         depth = 0
         for line in txt_nc.splitlines():
             if re.match(r"\s*Section\s", line):
